@@ -102,6 +102,44 @@ def _write_then_read_c(cap, rec, fil, chk, tif, n0, n1, s, fnum=0):
     return True
 
 
+def max_length_records(tif: bool, rec: bool, chk: bool, d: int, n1: int) -> bool:
+    """
+    pre: -2 <= d <= 2 and 1 <= n1 <= 3
+    post: _
+    """
+    # physical records of the maximum legal length (65535, the writer's default): the first logical record fills its first physical
+    # record exactly (d = 0), falls short of it or spills into a second one by 1..2 bytes
+    tif, rec, chk, d, n1 = mark.pickb(tif), mark.pickb(rec), mark.pickb(chk), mark.pick(d, -2, 2), mark.pick(n1, 1, 3)
+    with mark.untraced():
+        prt = PhysRec.PhysRecTail(hasRecNum=rec, fileNum=None, hasCheckSum=chk)
+        cap = 65535 - 4 - prt.prtLen
+        lrs = [bytes([0x80, 0]) + bytes([(i * 7) % 251 for i in range(cap + d - 2)]), _lr(1, n1, 0x33)]
+        f = SymWFile()
+        w = File.FileWrite(f, 'w', False, tif, 65535, prt)
+        pos = [w.write(lr) for lr in lrs]
+        w.close()
+        data = f.getvalue()
+        mark.hit()
+        try:
+            ref = REF.decode(data, tif)
+        except REF.LayoutError:
+            return False
+        if ref != [(pos[0], lrs[0]), (pos[1], lrs[1])]:
+            return False
+        r = File.FileRead(SymFile(data), 'r', False)
+        if r.readLrBytes() != lrs[0] or r.tellLr() != pos[0]:
+            return False
+        if r.readLrBytes() != lrs[1] or r.tellLr() != pos[1]:
+            return False
+        r.seekLr(pos[1])
+        if r.readLrBytes() != lrs[1]:
+            return False
+        r.seekLr(pos[0])
+        if r.readLrBytes(10) != lrs[0][:10] or r.skipLrBytes(20) != 20 or r.readLrBytes() != lrs[0][30:]:
+            return False
+        return True
+
+
 def strip_tif_is_plain(cap: int, rec: bool, chk: bool, n0: int, n1: int) -> bool:
     """
     pre: 1 <= cap <= 4 and 1 <= n0 <= 7 and 1 <= n1 <= 5
